@@ -859,3 +859,73 @@ def table_entry_lifetime(ctx, res):
         if ok:
             res.oblige(True, qual, "", "")
     res.floor(2)
+
+
+# ---------------------------------------------------------------------------
+# C16.dst-dispatch: a change of an intermediate link reaches the handler
+
+@rule("C16.dst-dispatch", ["C16"],
+      "ListenerItem.handle_dst - the handler of a '.' link for handlers that "
+      "take the destination's (object, name, old, new) - calls the user's "
+      "handler on every path, except when the link had no value before "
+      "(`old is Uninitialized`: the first materialisation is not a change) or "
+      "the handler has been garbage collected; any other way of returning "
+      "silently (old is None, new is None, an equality test) loses a "
+      "notification that observe() delivers")
+def dst_dispatch(ctx, res):
+    from ..cfg import enumerate_paths
+    from ..pycfg import build_cfg
+    from ..pyfacts import atomic_facts
+    repo = get_pyrepo(ctx)
+    mod = repo.module(TL)
+    fn = repo.inlined(TL, "ListenerItem.handle_dst")
+    ps = [a.arg for a in fn.args.args]
+    if len(ps) < 5:
+        raise AnalysisError("handle_dst signature")
+    oldp = ps[3]
+    # the local(s) holding the dereferenced handler
+    whs = {a.targets[0].id for a in ast.walk(fn)
+           if isinstance(a, ast.Assign) and isinstance(a.targets[0], ast.Name)
+           and "wrapped_handler_ref" in norm(a.value)}
+    if not whs:
+        raise AnalysisError("handle_dst: wrapped handler not dereferenced")
+
+    def is_dispatch(n):
+        return any(isinstance(c, ast.Call) and (
+            (isinstance(c.func, ast.Name) and c.func.id in whs)
+            or "wrapped_handler_ref()(" in norm(c))
+            for c in ast.walk(n)) if n is not None else False
+    allowed = {("F", f"{oldp} is not Uninitialized"),
+               ("T", f"{oldp} is Uninitialized")}
+    for w in whs:
+        allowed |= {("F", f"{w} is not None"), ("T", f"{w} is None")}
+    g = build_cfg(fn, "handle_dst")
+    n_paths = n_disp = 0
+    bad = None
+    for path in enumerate_paths(g, max_paths=4000):
+        if path and path[-1][0] == g.raise_exit.id:
+            continue
+        n_paths += 1
+        facts, did = set(), False
+        for nid, lab in path:
+            nd = g.nodes[nid]
+            if nd.kind == "cond" and lab in ("T", "F"):
+                facts |= atomic_facts(fn, nd.ast, lab == "T")
+            elif nd.kind != "cond" and is_dispatch(nd.ast):
+                did = True
+        if did:
+            n_disp += 1
+            continue
+        if not (facts & allowed) and bad is None:
+            bad = sorted(f"{t}:{a}" for t, a in facts)
+    res.instance("ListenerItem.handle_dst", mod.loc(fn), paths=n_paths,
+                 dispatching=n_disp)
+    if n_disp < 1:
+        raise AnalysisError("handle_dst: no path calls the handler")
+    res.oblige(bad is None, "handle_dst:silent-reason", mod.loc(fn),
+               f"handle_dst can return without calling the handler on a path "
+               f"whose tests are {bad}: none of them says that the link had "
+               f"no previous value or that the handler is dead - a change of "
+               f"the link (for instance from None to an object) is not "
+               f"reported to (new) / (name, new) handlers")
+    res.floor(1)
